@@ -225,6 +225,21 @@ impl World {
             w.wake();
         }
     }
+    /// Script side: the peer's connection dies. Its stream ends and every later operation on its
+    /// sink fails, as happens to `FramedWrite<SendStream>` when the QUIC connection is gone; a
+    /// router waiting for the sink is woken.
+    pub fn crash_peer(&mut self, id: usize) {
+        self.end_stream(id);
+        let s = &mut self.sinks[id];
+        if !s.errored {
+            s.errored_at_handed = s.handed.len();
+        }
+        s.errored = true;
+        s.fail_sticky = true;
+        if let Some(w) = s.waker.take() {
+            w.wake();
+        }
+    }
     pub fn end_stream(&mut self, stream: usize) {
         let s = &mut self.streams[stream];
         s.ended = true;
